@@ -392,7 +392,60 @@ def run(ctx):
         sys.dont_write_bytecode = old_flag
     ctx.dist["same_second_regenerations"] = regen
 
+    # ---- the order of the hoisted lines: a function of the sets of names (model: Paths8.emitted) ---------------------------
+    import random as _random
+    req3, got3 = [], []
+    EMIT_SRCS = [src for _n, src, _d in TEMPLATES] + [
+        "${zeta}${alpha}${al}${Beta}${_u}${a1}${a10}${a2}" + '<%def name="zd()">z</%def><%def name="aa()">a</%def><%def name="Ab()">b</%def>${zd()}${aa()}${Ab()}',
+        '<%namespace name="nsz" file="x.html"/><%namespace name="nsa" file="y.html"/>${nsz.f()}${nsa.f()}${mm}${bb}<%def name="outer()"><%def name="zz(p=v)">${p}${w}</%def><%def name="aa()">${u}</%def>${zz()}${aa()}${t}</%def>',
+        '<%page args="pz=1, pa=2, pm=3"/><% zz = 1; aa = 2; mm = 3 %>${k}${c}<%def name="d()">x</%def>${d()}']
+    for src in EMIT_SRCS:
+        try:
+            code = Template(src).code
+        except Exception:  # noqa
+            continue
+        # every generated function: the look-ups and def lines of its prologue, in the order they are written
+        lines = code.split("\n")
+        for i0, ln in enumerate(lines):
+            m0 = re.match(r"^(\s*)def (render_\w+|\w+)\(", ln)
+            if not m0:
+                continue
+            ind = len(m0.group(1)) + 8
+            names, defs_, seq = [], [], []
+            for ln2 in lines[i0 + 1:]:
+                if ln2.strip() == "__M_writer = context.writer()" or (ln2.strip() and len(ln2) - len(ln2.lstrip()) < ind - 4):
+                    break
+                m1 = re.match(r"^ {%d}(\w+) = (?:context\.get|_import_ns\.get|_mako_get_namespace)\(" % ind, ln2)
+                m2 = re.match(r"^ {%d}def (\w+)\(" % ind, ln2)
+                if m1:
+                    names.append(m1.group(1)); seq.append(m1.group(1))
+                elif m2:
+                    defs_.append(m2.group(1)); seq.append(m2.group(1))
+            if len(seq) < 2:
+                continue
+            ctx.evaluations += 1
+            ctx.nontrivial.add(("emit", src, m0.group(2)))
+            sh_n, sh_d = list(names), list(defs_)
+            _random.Random(len(seq)).shuffle(sh_n)
+            _random.Random(len(seq) + 1).shuffle(sh_d)
+            req3.append("emit|%s|%s" % (";".join(enc(x) for x in sh_n), ";".join(enc(x) for x in sh_d)))
+            got3.append(({"template": src, "function": m0.group(2), "hoisted_in_written_order": seq}, ";".join(enc(x) for x in seq)))
+            # the property's own reading: no dependence on the iteration order of a set means one canonical order
+            if seq != sorted(names) + sorted(defs_):
+                ctx.violation({"template": src, "function": m0.group(2), "hoisted_in_written_order": seq, "canonical": sorted(names) + sorted(defs_)},
+                              "the hoisted lines of a generated function are not written in an order that is a function of the set of names", tags=["c08.emit-order"])
+        for m3 in re.finditer(r"__M_locals = __M_dict_builtin\(([^)]*)\)|for __M_key in \[([^\]]*)\]", code):
+            items = [x.split("=")[0].strip().strip("'") for x in (m3.group(1) or m3.group(2)).split(",") if x.strip()]
+            if len(items) > 1:
+                ctx.evaluations += 1
+                if items != sorted(items):
+                    ctx.violation({"template": src, "line": m3.group(0), "canonical": sorted(items)}, "names published to the context are not written in sorted order", tags=["c08.emit-order.locals"])
+    ctx.generators["hoisted_line_order"] = {"functions": len(req3)}
+
     if model_ok:
+        for g, m in zip(got3, common.run_driver(PROP, req3)):
+            if m != g[1]:
+                disagreements.append(("emitted", g[0], [dec(x) for x in m.split(";") if x], g[0]["hoisted_in_written_order"]))
         for g, m in zip(got, common.run_driver(PROP, req)):
             if m != g[1]:
                 disagreements.append(("module_id", g[0], dec(m), dec(g[1])))
